@@ -27,7 +27,30 @@ B0Hist     == {35, 36}
 ShapesHist == {<<1, "none">>, <<48, "none">>, <<252, "nts_ok">>, <<76, "garbage">>}
 ViasHist   == {<<"ip", "empty", "44">>, <<"scion", "empty", "44">>}
 
+\* --- the circumstances of arrival (listener configuration, store class, ancillary data)
+ConfsAll   == ConfNames
+ConfsSw    == {"sw"}
+AncsAll    == AncNames
+AncsTs     == {"ts"}            \* the generators: a missing timestamp is brought about by the configuration "hw"
+StoresNone == {"asis"}
+StoresQuick == {"asis", "new", "k1", "k7", "k8", "il1", "il8", "full_evict", "full_stuck", "full_k3"}
+StoresAll  == StoreClassNames
+\* they are combined with these datagrams: the valid first bytes, the reply byte and
+\* three near misses; 47 / 48 bytes, a valid and an unauthentic NTS request; IP and SCION
+B0Env      == {8, 19, 27, 35, 200, 211, 219, 227, 36, 11, 99, 163}
+ShapesEnv  == {<<47, "none">>, <<48, "none">>, <<252, "nts_ok">>, <<252, "nts_badmac">>}
+ViasEnv    == {<<"ip", "empty", "44">>, <<"scion", "empty", "44">>}
+\* histories of two datagrams under every circumstance
+B0Env2     == {35, 36}
+ShapesEnv2 == {<<48, "none">>, <<252, "nts_ok">>}
+StoresEnv2 == {"asis", "new", "k8", "il1", "full_evict", "full_stuck"}
+
+\* the second datagram meets the store as the first one and its own client's
+\* history left it (the shape of a recorded case: request, then the sentinel)
+EnvSecond  == (ninj = 1 /\ draft.stage # "idle") => draft.sc = "asis"
+
 ASSUME Reflection
+ASSUME StampNeverDrops
 ASSUME HeaderTestExact
 ASSUME Cardinality(ShapesAll) = 54
 
@@ -39,18 +62,41 @@ Narrow(x) ==
   /\ (x.fam = "44" \/ (x.b0 \in B0Key /\ x.pk \in {"empty", "s2"} /\ x.len \in {48, 252}))
 \* thorough tier: everything with IPv4 hosts; other address types with the key first bytes
 Wide(x) == x.fam = "44" \/ x.b0 \in B0Key
-GenQuick == draft.stage \in {"via", "addr"} => Narrow(draft)
-GenDeep  == draft.stage \in {"via", "addr"} => Wide(draft)
+\* the circumstances other than the plain ones (every listener started without an
+\* interface name, store left as it is, timestamp attached) go with the datagrams
+\* B0s x ShapesEnv x ViasEnv, B0s = B0Env in the quick tier, B0Key in the thorough one
+PlainStart == \A s \in Servers : conf[s] = "sw"
+PlainDraft(x) == x.sc = "asis" /\ x.anc = "ts"
+EnvPrefix(x, b0s, vias) ==
+  /\ (x.stage \notin {"idle", "env"} => x.b0 \in b0s)
+  /\ (x.stage \in {"shape", "via", "addr"} => <<x.len, x.tr>> \in ShapesEnv)
+  /\ (x.stage \in {"via", "addr"} => <<x.tp, x.pk, x.fam>> \in vias)
+EnvQuick == (PlainStart /\ PlainDraft(draft)) \/ EnvPrefix(draft, B0Env, ViasEnv)
+\* thorough: a listener started with an interface name sees all 256 first bytes
+EnvDeep  == (PlainStart /\ PlainDraft(draft))
+            \/ (PlainDraft(draft) /\ EnvPrefix(draft, B0All, ViasEnv))
+            \/ EnvPrefix(draft, B0Key, ViasPair)
+GenQuick == (draft.stage \in {"via", "addr"} => Narrow(draft)) /\ EnvQuick
+GenDeep  == (draft.stage \in {"via", "addr"} => Wide(draft)) /\ EnvQuick
+GenDeepAll == (draft.stage \in {"via", "addr"} => Wide(draft)) /\ EnvDeep
 \* pair generator: only forged sources (the others are the ordinary cases)
-GenPairQuick == draft.stage # "idle" => draft.b0 \in B0Key
+GenPairQuick == draft.stage \notin {"idle", "env"} => draft.b0 \in B0Key
 \* nothing needs to be handled while generating
 GenStop == draft.stage # "addr" /\ ninj = 0
 
 Case(x) ==
   LET d == DraftDgram(x)
+      st == IF x.sc = "asis" THEN store[x.to] ELSE StoreInClass(x.sc, CID(d))
+      cf == conf[x.to]
   IN [tp |-> x.tp, b0 |-> x.b0, len |-> x.len, tr |-> x.tr, pk |-> x.pk, fam |-> x.fam, from |-> x.from, to |-> x.to,
       t |-> Trailer(x.tr), nat |-> NatLen(x.tr), path |-> PathOf(x.pk), sc |-> d.sc,
-      exp |-> Len(Replies(x.to, d)), drop |-> DropStage(x.to, d)]
-Emit == draft.stage = "addr" => PrintT(<<"CASE", ToJson(Case(draft))>>)
+      \* circumstances: listener configuration, store class (and what it means), ancillary data
+      conf |-> cf, store |-> x.sc, cls |-> ClassOf(x.sc), il |-> d.il, anc |-> AncAt(cf, x.anc),
+      org |-> ReplyOrigin(st, d),
+      exp |-> Len(RepliesB(x.to, d, BufCap(x.tp), AncAt(cf, x.anc))),
+      drop |-> DropStageB(x.to, d, BufCap(x.tp), AncAt(cf, x.anc))]
+\* (TLC evaluates invariants also on states that fail a CONSTRAINT: the guard repeats it)
+Emit     == (draft.stage = "addr" /\ EnvQuick) => PrintT(<<"CASE", ToJson(Case(draft))>>)
+EmitDeep == (draft.stage = "addr" /\ EnvDeep) => PrintT(<<"CASE", ToJson(Case(draft))>>)
 EmitPair == (draft.stage = "addr" /\ draft.from # Client) => PrintT(<<"CASE", ToJson(Case(draft))>>)
 =============================================================================
